@@ -194,7 +194,7 @@ def _m_templates(v, kind, space, idx, idx2, orders=(0, 1, 2)):
     for o in orders:
         def _mk(o):
             @tmpl(f"{tag}.precursor_matrix_block({o},{block},{bidx})", c, idx + idx2,
-                  cost=6 if o == 2 else 1, tier="t" if o == 2 else "q")
+                  cost=6 if o == 2 else 1, tier="t" if (o == 2 and kind == "pp") else "q")
             def _(w): return w.call(w.m(v, kind), "precursor_matrix_block", o, block, bidx)
 
             @tmpl(f"{tag}.isr_matrix_block({o},{block},{bidx})", c, idx + idx2,
